@@ -227,6 +227,15 @@ def enc(s):
     return ','.join(map(str, s)) if s else '-'
 
 
+
+def qlen(p):
+    """how many chunks PopenSpawn's reader thread has queued (whatever container the class uses for them)"""
+    q = getattr(p, '_read_queue', None)
+    if q is None:
+        return 0
+    return q.qsize() if hasattr(q, 'qsize') else len(q)
+
+
 # --------------------------------------------------------------------------- calls that never come back
 
 class Stuck(BaseException):
